@@ -137,8 +137,11 @@ def profile1(r):
 
     proj_r = (a1r - 7*a1r*rr2 + 3*rr2*(1 + rr2)*np.log((1 + a1r)/rr))*32/27
 
-    source = np.concatenate((source_l, source_r))
-    projection = np.concatenate((proj_l, proj_r))
+    # (in the order of r, which does not have to be sorted)
+    source = np.empty(r.shape)
+    projection = np.empty(r.shape)
+    source[r <= 0.25], source[r > 0.25] = source_l, source_r
+    projection[r <= 0.25], projection[r > 0.25] = proj_l, proj_r
 
     return source, projection
 
@@ -256,8 +259,11 @@ def profile3(r):
     source_r = 2*(1 - rr)**2
     proj_r = (4/3)*a1r*(1 + 2*rr**2) - 4*rr**2*np.log((1 + a1r)/rr)
 
-    source = np.concatenate((source_l, source_r))
-    projection = np.concatenate((proj_l, proj_r))
+    # (in the order of r, which does not have to be sorted)
+    source = np.empty(r.shape)
+    projection = np.empty(r.shape)
+    source[r <= 0.5], source[r > 0.5] = source_l, source_r
+    projection[r <= 0.5], projection[r > 0.5] = proj_l, proj_r
 
     return source, projection
 
@@ -374,8 +380,11 @@ def profile4(r):
     source_r = source_right(rr)
     proj_r = proj_right(rr)
 
-    source = np.concatenate((source_l, source_r))
-    projection = np.concatenate((proj_l, proj_r))
+    # (in the order of r, which does not have to be sorted)
+    source = np.empty(r.shape)
+    projection = np.empty(r.shape)
+    source[r <= 0.7], source[r > 0.7] = source_l, source_r
+    projection[r <= 0.7], projection[r > 0.7] = proj_l, proj_r
 
     return source, projection
 
